@@ -2,6 +2,7 @@ package checks
 
 import (
 	"fmt"
+	"math/big"
 	"strconv"
 	"strings"
 
@@ -150,6 +151,15 @@ func runC16(c *fw.Case) (o fw.Outcome) {
 		if d[:3+mncLen] != plmn {
 			o.Fail("supi-left-plmn", "UE %d SUPI %q left the configured PLMN %s", i, ue.Supi, plmn)
 			return
+		}
+		if want := new(big.Int); true { // observation, not a verdict: no property states SUPI_i = initial IMSI + i
+			want.SetString(imsi, 10)
+			want.Add(want, big.NewInt(int64(i)))
+			if fmt.Sprintf("%0*s", len(imsi), want.String()) == d {
+				o.Count("observation:supi_is_initial_plus_index", 1)
+			} else {
+				o.Count("observation:supi_is_not_initial_plus_index", 1)
+			}
 		}
 		if i == 0 && d != imsi {
 			o.Fail("supi-index0", "UE 0 has SUPI %q, configured initial IMSI is %s", ue.Supi, imsi)
